@@ -196,8 +196,11 @@ def cold_meson(argv: T.Sequence[str], cwd: str, env: T.Optional[T.Dict[str, str]
 # Server: a separate interpreter (own hash seed / LD_PRELOAD) answering run_meson requests over a pipe.
 # Requests are pickles: {'argv', 'cwd', 'env', 'pre': (module, func, args) | None, 'timeout'}.
 class Server:
-    def __init__(self, hashseed: T.Union[int, str] = 0, ld_preload: T.Optional[str] = None):
+    def __init__(self, hashseed: T.Union[int, str] = 0, ld_preload: T.Optional[str] = None,
+                 env_extra: T.Optional[T.Dict[str, str]] = None):
         env = dict(os.environ)
+        # variables that mesonbuild reads at import time (e.g. MESON_RSP_THRESHOLD) must be in the server's own environment
+        env.update(env_extra or {})
         env['PYTHONHASHSEED'] = str(hashseed)
         env['PYTHONPATH'] = os.path.join(VERIF, 'lib')
         env['VERIF_REPO'] = REPO
